@@ -232,6 +232,19 @@ def _v_prim_sentinel(tree):
     M.replace_stmt(g, lambda s: M.src_is(s, "total_weight += weight"), [], count=1)
 
 
+def _v_kruskal_init_deleted(tree):
+    g = M.find_func(tree, "kruskal")
+    M.replace_stmt(g, lambda s: M.src_is(s, "mst_edges = []"), [])
+
+
+def _v_kruskal_final_return_deleted(tree):
+    g = M.find_func(tree, "kruskal")
+    last = g.body[-1]
+    if not isinstance(last, ast.Return):
+        raise M.Skip("kruskal does not end in a return")
+    g.body = g.body[:-1] + [ast.Pass()]
+
+
 def _v_accept_all(tree):
     g = M.find_func(tree, "kruskal")
     M.replace_stmt(g, lambda s: isinstance(s, ast.If) and M.src_is(s.test, "uf.union(u, v)"), lambda s: [ast.Expr(value=M.expr("uf.union(u, v)"))] + s.body)
@@ -279,5 +292,7 @@ VARIANTS = [
     M.Variant("kruskal sorts only the lightest edges first and drops ties at the cut (seed C13-C)", MS, _v_partial_sort, "C13-O1"),
     M.Variant("prim records an edge only when its tail is not the None sentinel (seed C13-D)", MS, _v_prim_sentinel, "C13-O2"),
     M.Variant("twin: kruskal scan moved into a closure over the complete sorted list", MS, _t_scan_closure, None),
+    M.Variant("kruskal's tree list is never initialised", MS, _v_kruskal_init_deleted, "C13-G5"),
+    M.Variant("kruskal's final return is missing", MS, _v_kruskal_final_return_deleted, "C13-G6"),
     M.Variant("twin: reformat", MS, _t_reformat, None),
 ]
